@@ -176,7 +176,9 @@ pub(crate) fn decompress(x: &[u8], n: usize) -> Option<Vec<i16>> {
         let mut low_bits = 0i16;
         let (index_div_8, index_mod_8) = index.div_mod_floor(&8);
         low_bits |= (x[index_div_8] as i16) << index_mod_8;
-        low_bits |= (x[index_div_8 + 1] as i16) >> (8 - index_mod_8);
+        if index_mod_8 != 0 {
+            low_bits |= (x[index_div_8 + 1] as i16) >> (8 - index_mod_8);
+        }
         low_bits = (low_bits & 255) >> 1;
         index += 7;
 
@@ -186,7 +188,7 @@ pub(crate) fn decompress(x: &[u8], n: usize) -> Option<Vec<i16>> {
             index += 1;
             high_bits += 1;
 
-            if high_bits == 95 || index + 1 == bitvector.len() {
+            if high_bits == 95 || index + 1 >= bitvector.len() {
                 return None;
             }
         }
